@@ -21,18 +21,18 @@ def main():
     src = open(path).read()
     if src.count(old) != count:
         print("mutation site matches %d times, want %d" % (src.count(old), count)); return 3
-    dirty = subprocess.run(["git", "-C", "/repo", "status", "--porcelain"], capture_output=True, text=True).stdout.strip()
+    dirty = subprocess.run(["git", "-C", "/repo", "status", "--porcelain"], capture_output=True, text=True, errors="replace").stdout.strip()
     if dirty:
         print("/repo is dirty, refusing:\n" + dirty); return 3
     open(path, "w").write(src.replace(old, new))
     rc_all = {}
     try:
-        b = subprocess.run("cd /repo && GOFLAGS=-mod=mod go build ./... 2>&1 | tail -5", shell=True, capture_output=True, text=True)
+        b = subprocess.run("cd /repo && GOFLAGS=-mod=mod go build ./... 2>&1 | tail -5", shell=True, capture_output=True, text=True, errors="replace")
         if b.stdout.strip():
             print("mutant does not build:\n" + b.stdout); return 3
         for prop in props.split(","):
             t0 = time.time()
-            p = subprocess.run(["python3", "/verif/run.py", prop, tier], capture_output=True, text=True)
+            p = subprocess.run(["python3", "/verif/run.py", prop, tier], capture_output=True, text=True, errors="replace")
             lines = [l for l in (p.stdout + p.stderr).splitlines() if l.startswith(("VIOLATION", "violation", "KNOWN", "INCONCLUSIVE")) or "held on" in l]
             print("%s %s rc=%d %.1fs" % (prop, tier, p.returncode, time.time() - t0))
             for l in lines[:6]:
